@@ -3,20 +3,24 @@
    one output line.  Two images are kept between lines: [mim] = the MODEL's image, produced only by the extracted Coq
    functions (FormatImage.format_image, VolSession.sess_create / sess_step / vol_flush_entry); [dim] = the DEVICE, the same
    formatted image advanced only by the library's own logged device writes.  After every line the WHOLE images are compared
-   (every offset either map holds); between mount and unmount bit 0 of the status byte (0x25 on FAT12/16: the volume dirty
-   flag, Model/Flags.v) is the one bit this model does not write - it is masked when the line carries writes of a mounted
-   volume ("m" comparisons), and compared exactly after unmount ("x").
+   (every offset either map holds) - EXACTLY, including the status byte (0x25 on FAT12/16: the volume dirty flag): the model
+   runs the MOUNTED operations of Model/VolStatus.v (sesss_create / sesss_step / vols_remove_file_root: the operation, then
+   set_dirty_flag(true) exactly when the code passes it; flush never; "sync x" = unmount = set_dirty_flag(false)), with the
+   status latch (Flags.fstat) taken at "fmt" (= mount of the formatted volume).
    "upper <file>"                              load the to_uppercase table (shared with c15 / cdir / cvol) -> "ok <n>"
    "fmt <9 format tokens of mode c06> <fill> <acc 0|1>"   both images := Model/FormatImage.format_image on a device of <fill>
         -> "ok <bits> <cluster size> <clusters> <fixed_root+vgeom precondition 0|1> <page digest>" | "err .." | "panic"
+   "poke <off> <hex>"                          bytes written by hand into the unmounted device (the mount-time status byte) -> "ok"
    "create <name hex> <y m d h mi s ms> | <off>:<hex> ..."    VolSession.sess_create; the writes the library did
         -> "ok <slot> | <state> | <cmp>"  |  "none | - | <cmp>"
    "step <y m d h mi s ms> <op ...> | <off>:<hex> ..."   op = write <hex> | read <n> | seek start|end|cur <off> | truncate
         -> "<result> | <state> | <cmp>"
    "flush | <off>:<hex> ..."                   VolSession.vol_flush_entry (File::flush, or the drop of the handle)
         -> "ok <dirty before 0|1> | <state> | <cmp>"
-   "sync m|x | <off>:<hex> ..."                device writes of a call the model does nothing for (second flush, drop after
-        flush: still mounted, "m"; unmount: the status byte is cleared again, "x" = exact comparison) -> "ok | <state> | <cmp>"
+   "remove <name hex> | <off>:<hex> ..."        VolRemove.vol_remove_file_root on the model image with the latch of the (dropped) handle's
+        session: lookup, free_cluster_chain on the FAT copies, deletion loop -> "ok | - | <cmp>" | "err <kind> | - | <cmp>" | "none | - | <cmp>"
+   "sync m|x | <off>:<hex> ..."                "m": device writes of a call the model does nothing for (second flush, drop after
+        flush); "x": unmount = VolStatus.vol_unmount (the mount-time status byte comes back) -> "ok | <state> | <cmp>"
    "digest"                                    -> "ok <page digest of the MODEL image>" (executor `pages` format, md5 per page)
    "decp <fill> <off> <hex> ..."               the decode line (below) of exactly these pages (the library's own final dump)
    "dec"                                       Spec/Abs.abs + Spec/Wf.wf_issues (identity folding) of the DEVICE image
@@ -31,6 +35,7 @@ let g : Abs.geom ref = ref (Abs.parse_geom (Image.img_empty BinNums.N0))
 let fi : Table.fsinfo ref = ref { Table.fi_free = None; Table.fi_next = None; Table.fi_dirty = false }
 let st : VolSession.sstate option ref = ref None
 let acc = ref false
+let stat : Flags.fstat ref = ref (Flags.st_mount BinNums.N0)
 
 let upper c = M_c15.upper_table c
 let oem = Name.oem_decode_lossy
@@ -146,6 +151,7 @@ let line (t : string list) : string =
        (match FormatImage.format_image o ts (Image.img_empty (n_of_string fill)) with
         | Base.Ok im ->
           mim := im; dim := im; g := Abs.parse_geom im;
+          stat := VolStatus.vol_mount_status !g im;
           let bs = Image.img_read im BinNums.N0 (nat_of_int 512) in
           let fsi = Image.img_read im (Bpb.fsinfo_offset bs) (nat_of_int 512) in
           (match Bpb.mount Bpb.Debug bs fsi false with
@@ -157,14 +163,22 @@ let line (t : string list) : string =
         | Base.Err e -> "err " ^ err_name e
         | Base.Panic -> "panic"
         | Base.OutOfFuel -> "outoffuel"))
+  | ["poke"; off; hx] ->
+    (* the status byte of the unmounted volume set by hand on the device (before the mount): both images, and the mount latch *)
+    mim := Image.img_write !mim (n_of_string off) (bytes_of_hex hx);
+    dim := Image.img_write !dim (n_of_string off) (bytes_of_hex hx);
+    stat := VolStatus.vol_mount_status !g !mim;
+    "ok"
   | "create" :: name :: y :: m :: d :: h :: mi :: s :: ms :: rest ->
     let (_, wr) = split_bar [] rest in
     apply_writes wr;
-    (match VolSession.sess_create upper oem !mim !fi (name_of_hex name) (M_c18.mkdt y m d h mi s ms) with
-     | Some s0 ->
-       st := Some s0; mim := s0.VolSession.s_im; fi := s0.VolSession.s_fi;
-       Printf.sprintf "ok %s | %s | %s" (string_of_n s0.VolSession.s_en.VolSession.en_slot) (state_s ()) (compare_images (status_off ()))
-     | None -> st := None; Printf.sprintf "none | - | %s" (compare_images (status_off ())))
+    (* the FS-info latch lives in the FileSystem: a later create_file sees what the earlier handles left *)
+    (match !st with Some s0 -> fi := s0.VolSession.s_fi | None -> ());
+    (match VolStatus.sesss_create upper oem !mim !fi !stat (name_of_hex name) (M_c18.mkdt y m d h mi s ms) with
+     | Some (s0, stat') ->
+       st := Some s0; mim := s0.VolSession.s_im; fi := s0.VolSession.s_fi; stat := stat';
+       Printf.sprintf "ok %s | %s | %s" (string_of_n s0.VolSession.s_en.VolSession.en_slot) (state_s ()) (compare_images (-1))
+     | None -> st := None; Printf.sprintf "none | - | %s" (compare_images (-1)))
   | "step" :: y :: m :: d :: h :: mi :: s :: ms :: rest ->
     let (opt, wr) = split_bar [] rest in
     let op = match opt with
@@ -178,9 +192,9 @@ let line (t : string list) : string =
     (match op, !st with
      | Some op, Some s0 ->
        apply_writes wr;
-       let (s1, r) = VolSession.sess_step !g !acc s0 (op, M_c18.mkdt y m d h mi s ms) in
-       st := Some s1; mim := s1.VolSession.s_im;
-       Printf.sprintf "%s | %s | %s" (res_s r) (state_s ()) (compare_images (status_off ()))
+       let ((s1, stat'), r) = VolStatus.sesss_step !g !acc s0 !stat (op, M_c18.mkdt y m d h mi s ms) in
+       st := Some s1; mim := s1.VolSession.s_im; stat := stat';
+       Printf.sprintf "%s | %s | %s" (res_s r) (state_s ()) (compare_images (-1))
      | _ -> "bad")
   | "flush" :: rest ->
     let (_, wr) = split_bar [] rest in
@@ -190,12 +204,28 @@ let line (t : string list) : string =
        let dirty = VolSession.sess_dirty s0.VolSession.s_h s0.VolSession.s_en in
        let s1 = VolSession.vol_flush_entry !g s0 in
        st := Some s1; mim := s1.VolSession.s_im;
-       Printf.sprintf "ok %d | %s | %s" (if dirty then 1 else 0) (state_s ()) (compare_images (status_off ()))
+       Printf.sprintf "ok %d | %s | %s" (if dirty then 1 else 0) (state_s ()) (compare_images (-1))
      | None -> "bad")
+  | "remove" :: name :: rest ->
+    let (_, wr) = split_bar [] rest in
+    apply_writes wr;
+    let fi0 = (match !st with Some s0 -> s0.VolSession.s_fi | None -> !fi) in
+    st := None;
+    (match VolStatus.vols_remove_file_root upper oem !mim fi0 !stat (name_of_hex name) with
+     | Some (((r, im'), fi'), stat') ->
+       mim := im'; fi := fi'; stat := stat';
+       Printf.sprintf "%s | - | %s" (match r with Base.Ok _ -> "ok" | Base.Err e -> "err " ^ err_name e | Base.Panic -> "panic" | Base.OutOfFuel -> "fuel")
+         (compare_images (-1))
+     | None -> fi := fi0; Printf.sprintf "none | - | %s" (compare_images (-1)))
   | "sync" :: how :: rest ->
     let (_, wr) = split_bar [] rest in
     apply_writes wr;
-    Printf.sprintf "ok | %s | %s" (state_s ()) (compare_images (if how = "m" then status_off () else -1))
+    (* "x": unmount (Model/VolStatus.vol_unmount: set_dirty_flag(false)); "m": a call the model does nothing for *)
+    if how = "x" then begin
+      let (im', stat') = VolStatus.vol_unmount !g !mim !stat in
+      mim := im'; stat := stat'
+    end;
+    Printf.sprintf "ok | %s | %s" (state_s ()) (compare_images (-1))
   | ["dec"] -> decode !dim
   | ["decm"] -> decode !mim
   | ["digest"] -> "ok " ^ M_c06.pages_digest !mim
